@@ -111,30 +111,29 @@ def abstract_fp_arith(exprs):
   if _FP_ARITH is None:
     _FP_ARITH = {getattr(z3, n) for n in ('Z3_OP_FPA_ADD', 'Z3_OP_FPA_SUB', 'Z3_OP_FPA_MUL', 'Z3_OP_FPA_DIV', 'Z3_OP_FPA_FMA',
                                          'Z3_OP_FPA_SQRT', 'Z3_OP_FPA_REM', 'Z3_OP_FPA_ROUND_TO_INTEGRAL', 'Z3_OP_FPA_TO_FP',
-                                         'Z3_OP_FPA_TO_FP_UNSIGNED') if hasattr(z3, n)}
-  memo = {}
+                                         'Z3_OP_FPA_TO_FP_UNSIGNED', 'Z3_OP_FPA_TO_SBV', 'Z3_OP_FPA_TO_UBV') if hasattr(z3, n)}
   fresh = {}
+  seen = set()
 
-  def go(e):
-    k = e.get_id()
-    if k in memo:
-      return memo[k]
-    if not z3.is_app(e) or e.num_args() == 0:
-      memo[k] = e
-      return e
-    if e.decl().kind() in _FP_ARITH:
-      c = fresh.get(k)
-      if c is None:
-        c = z3.Const(f'fpcut!{len(fresh)}', e.sort())
-        fresh[k] = c
-      memo[k] = c
-      return c
-    ch = [go(c) for c in e.children()]
-    r = e.decl()(*ch) if any(not a.eq(b) for a, b in zip(ch, e.children())) else e
-    memo[k] = r
-    return r
+  def collect(e):
+    stack = [e]
+    while stack:
+      x = stack.pop()
+      k = x.get_id()
+      if k in seen or not z3.is_app(x):
+        continue
+      seen.add(k)
+      if x.num_args() and x.decl().kind() in _FP_ARITH:
+        if k not in fresh:
+          fresh[k] = (x, z3.Const(f'fpcut!{len(fresh)}', x.sort()))
+        continue          # maximal arithmetic sub-term: do not descend
+      stack.extend(x.children())
 
-  out = [go(e) if is_z3(e) else e for e in exprs]
+  zs = [e for e in exprs if is_z3(e)]
+  for e in zs:
+    collect(e)
+  pairs = list(fresh.values())
+  out = [z3.substitute(e, *pairs) if (is_z3(e) and pairs) else e for e in exprs]
   return out, len(fresh)
 
 
